@@ -537,19 +537,27 @@ impl GRLParser {
     fn parse_single_rule(&mut self, grl_text: &str) -> Result<Rule> {
         let cleaned = self.clean_text(&strip_comments(grl_text));
 
-        // Extract rule components using cached regex
+        // Extract rule components using cached regex. The pattern runs on a copy in which the
+        // contents of string literals are masked (same length), so that a `{` or `"` inside a quoted
+        // name or attribute value cannot be taken for the start of the body; the pieces are then
+        // cut from the real text.
+        let masked = mask_strings(&cleaned);
         let captures =
             rule_regex()
-                .captures(&cleaned)
+                .captures(&masked)
                 .ok_or_else(|| RuleEngineError::ParseError {
                     message: format!("Invalid GRL rule format. Input: {}", cleaned),
                 })?;
+        let unmask = |part: &str| -> &str {
+            let start = part.as_ptr() as usize - masked.as_ptr() as usize;
+            &cleaned[start..start + part.len()]
+        };
 
         // Rule name can be either quoted (group 1) or unquoted (group 2)
         let rule_name = if let Some(quoted_name) = captures.get(1) {
-            quoted_name.to_string()
+            unmask(quoted_name).to_string()
         } else if let Some(unquoted_name) = captures.get(2) {
-            unquoted_name.to_string()
+            unmask(unquoted_name).to_string()
         } else {
             return Err(RuleEngineError::ParseError {
                 message: "Could not extract rule name".to_string(),
@@ -557,10 +565,10 @@ impl GRLParser {
         };
 
         // Attributes section (group 3)
-        let attributes_section = captures.get(3).unwrap_or("");
+        let attributes_section = captures.get(3).map(unmask).unwrap_or("");
 
         // Rule body (group 4)
-        let rule_body = captures.get(4).unwrap();
+        let rule_body = unmask(captures.get(4).unwrap());
 
         // Parse salience from attributes section
         let salience = self.extract_salience(attributes_section)?;
